@@ -74,7 +74,7 @@ def judgePool (given : Option Bool) (total idx : Nat) (p : Nat × Nat × Nat) : 
   if effectiveDiscard given then
     if bad > 0 then some s!"fail:discard-sample:bad={bad} in pool {idx}"
     else if fired + disc != total then
-      some s!"fail:lost-token:fired={fired},discarded={disc},total={total}: tokens of pool {idx} were neither fired nor reported as discarded"
+      some s!"fail:lost-token:fired={fired},discarded={disc},total={total} in pool {idx}: not exactly one result line (a request or a discarded sample) per token"
     else if disc == 0 then
       some s!"fail:late-fired:pool {idx} without any discarded sample although discard_overflow is on by default or explicitly; fired={fired},discarded={disc}"
     else none
